@@ -114,7 +114,7 @@ pub(crate) enum Pattern {
 
 impl Pattern {
     /// Converts a `Scrutinee` to a `Pattern`.
-    pub(crate) fn from_scrutinee(scrutinee: ty::TyScrutinee) -> Self {
+    pub(crate) fn from_scrutinee(decl_engine: &DeclEngine, scrutinee: ty::TyScrutinee) -> Self {
         let pat = match scrutinee.variant {
             ty::TyScrutineeVariant::CatchAll => Pattern::Wildcard,
             ty::TyScrutineeVariant::Variable(_) => Pattern::Wildcard,
@@ -125,13 +125,24 @@ impl Pattern {
                 fields,
                 instantiation_call_path: _,
             } => {
+                // The struct pattern always has all the fields of the struct, in the order
+                // of their declaration, regardless of the order in which the fields are listed
+                // in the scrutinee. Fields that are not listed (ignored by the rest pattern `..`)
+                // match any value.
+                let struct_decl = decl_engine.get_struct(struct_ref.id());
                 let mut new_fields = vec![];
-                for field in fields.into_iter() {
-                    let f = match field.scrutinee {
-                        Some(scrutinee) => Pattern::from_scrutinee(scrutinee),
-                        None => Pattern::Wildcard,
+                for decl_field in struct_decl.fields.iter() {
+                    let f = match fields
+                        .iter()
+                        .find(|field| field.field_def_name == decl_field.name)
+                    {
+                        Some(ty::TyStructScrutineeField {
+                            scrutinee: Some(scrutinee),
+                            ..
+                        }) => Pattern::from_scrutinee(decl_engine, scrutinee.clone()),
+                        _ => Pattern::Wildcard,
                     };
-                    new_fields.push((field.field.as_str().to_string(), f));
+                    new_fields.push((decl_field.name.as_str().to_string(), f));
                 }
                 Pattern::Struct(StructPattern {
                     struct_name: struct_ref.name().to_string(),
@@ -141,14 +152,14 @@ impl Pattern {
             ty::TyScrutineeVariant::Or(elems) => {
                 let mut new_elems = PatStack::empty();
                 for elem in elems.into_iter() {
-                    new_elems.push(Pattern::from_scrutinee(elem));
+                    new_elems.push(Pattern::from_scrutinee(decl_engine, elem));
                 }
                 Pattern::Or(new_elems)
             }
             ty::TyScrutineeVariant::Tuple(elems) => {
                 let mut new_elems = PatStack::empty();
                 for elem in elems.into_iter() {
-                    new_elems.push(Pattern::from_scrutinee(elem));
+                    new_elems.push(Pattern::from_scrutinee(decl_engine, elem));
                 }
                 Pattern::Tuple(new_elems)
             }
@@ -160,7 +171,7 @@ impl Pattern {
             } => Pattern::Enum(EnumPattern {
                 enum_name: enum_ref.name().to_string(),
                 variant_name: variant.name.to_string(),
-                value: Box::new(Pattern::from_scrutinee(*value)),
+                value: Box::new(Pattern::from_scrutinee(decl_engine, *value)),
             }),
         };
         pat
